@@ -7,6 +7,7 @@ ROOT = os.path.dirname(os.path.dirname(os.path.abspath(__file__)))
 EXTRA = {"C01-B": ["C05", "C03"], "C03-A": ["C05"], "C05-A": ["C03"], "C05-B": ["C03"], "C09-A": ["C08"], "C09-B": ["C08"], "C08-A": ["C17"], "C08-B": ["C09"], "C10-B": ["C11"], "C11-B": ["C10", "C12"], "C12-A": ["C11"], "C12-B": ["C11"]}
 def sh(cmd, **kw):
     return subprocess.run(cmd, shell=True, stdout=subprocess.PIPE, stderr=subprocess.STDOUT, text=True, **kw)
+os.environ["VERIF_EVIDENCE_DIR"] = "/tmp/verif-mut-evidence"  # never clobber the committed evidence
 sel = sys.argv[1:]
 if sh("git -C /repo diff --quiet").returncode != 0:
     print("repo dirty"); sys.exit(2)
